@@ -32,6 +32,8 @@ def _gen(rng):
         name, prog = 'tmpl:countdown', gen.tmpl_countdown(rng)
     elif k < 0.67:
         name, prog = 'tmpl:pending_return', gen.tmpl_pending_return(rng)
+    elif k < 0.8:
+        name, prog = 'tmpl:label_table', gen.tmpl_label_table(rng)
     else:
         name, prog = gen.gen_case(rng, allow_input=True)
     if rng.random() < 0.35 and not name.startswith('tmpl:dispatch'):
@@ -154,7 +156,7 @@ def main(tier, seed):
     rep = C.Reporter(PID, tier, seed)
     C.build(['repo', 'core', 'numlib'])
     C.sweep_stale_tmp()
-    n = 170 if tier == 'quick' else 4500
+    n = 320 if tier == 'quick' else 6000
     rundir = C.mktmp(PID)
     _RUN.update(tier=tier, seed=seed, dir=rundir)
     results = C.pmap(_case, list(range(n)), chunksize=2, stop_after_bad=40,
@@ -196,5 +198,6 @@ def main(tier, seed):
     minimum = {'evaluations': (evaluated, 60 if tier == 'quick' else 1500), 'executables': (compiled, 150),
                'partial_prefix': (featc.get('partial_prefix', 0), 25),
                'prefix_ends_with_area_command': (featc.get('prefix_ends_with_area_command', 0), 5),
-               'pending_heart_target': (featc.get('pending_heart_target', 0), 2)}
+               'pending_heart_target': (featc.get('pending_heart_target', 0), 2),
+               'jump_into_prefix_after_read': (featc.get('jump_into_prefix_after_read', 0), 5)}
     return rep.finish(cov, assumptions, t0, minimum)
